@@ -329,6 +329,21 @@ func c15Message(r *fw.Run, key string, b *builtMsg, faultAll bool) {
 		r.Violation(key, []string{"encoders_disagree"}, map[string]any{"ops": b.Ops}, "C15: WriteTo/MarshalText/String differ (n=%d len=%d)", n, buf.Len())
 		return
 	}
+	// the bytes MarshalText returned belong to the caller: marshalling other messages afterwards
+	// must not change them
+	{
+		other := &sse.Message{}
+		other.AppendData("another message, longer than most of the generated ones ........................................")
+		other.ID = sse.ID("other")
+		for k := 0; k < 3; k++ {
+			other.MarshalText()
+			_ = other.String()
+		}
+		if string(mt) != buf.String() {
+			r.Violation(key, []string{"marshaltext_result_overwritten"}, map[string]any{"ops": b.Ops, "now": fw.Q(fw.Trunc(string(mt), 200)), "was": fw.Q(fw.Trunc(buf.String(), 200))}, "C15: the slice returned by MarshalText changed after other messages were marshalled")
+			return
+		}
+	}
 	if buf.String() != enc {
 		r.Violation(key, []string{"encoding_differs_from_model"}, map[string]any{"ops": b.Ops, "got": fw.Q(fw.Trunc(buf.String(), 400)), "want": fw.Q(fw.Trunc(enc, 400))},
 			"C15: encoding differs from the line model of the API arguments")
@@ -378,7 +393,7 @@ func c15Message(r *fw.Run, key string, b *builtMsg, faultAll bool) {
 		if W > 60 && k > 12 && k < W-12 {
 			stride := W / 24
 			if faultAll {
-				stride = W / 200
+				stride = W / 96
 			}
 			if stride > 1 && k%stride != 0 {
 				continue
@@ -445,7 +460,7 @@ func TestC15(t *testing.T) {
 			c15Message(r, key, f(), true)
 		}
 	}
-	n := r.N(6000, 120000)
+	n := r.N(6000, 60000)
 	for i := 0; i < n; i++ {
 		if !r.Mine("G", i) {
 			continue
